@@ -5,8 +5,9 @@
 set -u
 cmd=$1; id=$2
 case $cmd in
-confirm)
+confirm|confirm2)
   wt=/tmp/wt/$id; out=/tmp/wt/$id-out; tgt=/tmp/wt/$id-target
+  [ $cmd = confirm2 ] && out=/tmp/wt/$id-out2
   cd $wt || exit 2
   demo=$(python3 -c "import json;print(json.load(open('$out/meta.json'))['demo_cmd'])")
   {
